@@ -409,6 +409,10 @@ func (p *Parser) parseBuffer(buf []byte, last bool) (err error) {
 			}
 			p.starts = p.starts[0:depth]
 			n := p.stack[len(p.stack)-1]
+			if _, ok := n.(gen.Key); ok {
+				// A key and a colon but no value.
+				return p.newError(off, "expected a value, not '}'")
+			}
 			p.stack = p.stack[:len(p.stack)-1]
 			// TBD maybe separarte add function or check here for time options
 			if err = p.add(n, off); err != nil {
@@ -581,6 +585,10 @@ func (p *Parser) parseBuffer(buf []byte, last bool) (err error) {
 			p.tmp = append(p.tmp, b)
 		case tokenSpc:
 			p.addToken(off)
+			if b == ',' && p.mode == colonMap {
+				// The token was a key, the comma is not what has to follow.
+				off--
+			}
 		case tokenColon:
 			p.addToken(off)
 			if p.mode != colonMap {
